@@ -285,6 +285,11 @@ func (conn *Conn) recv() {
 			})
 		}
 	}
+	// Responses that were completely received before the connection ended are
+	// still delivered: wait for the frames already read to be processed.
+	processed := make(chan struct{})
+	pipeline.Schedule(func() { close(processed) })
+	<-processed
 	conn.mutex.Lock()
 	conn.shutdown = true
 	if err == io.EOF {
